@@ -115,6 +115,7 @@ class C10:
         vt = rm.vtuple(target)
         py2 = vt < (3, 0)
         features = set()
+        has_inner = False
         if enc == "real":
             r = ctx.pool.ref(target).call("dumps_code", values=case["values"], mver=case["mver"])
             if "reject" in r:
@@ -130,6 +131,11 @@ class C10:
             features |= kinds
         else:
             consts = ["T", case["values"]]
+            if case["choices"] and case["choices"][0] % 2:
+                # ... preceded by a nested code object (its empty line table and its names are written before the values:
+                # Python 2 interns them, and later equal strings become 'R' references to those slots)
+                inner = rm.template_code_tree(target, ["T", [["N"]]], name="inner", varnames=["a"])
+                consts = ["T", [inner] + case["values"]]
             # distinct values in every integer field of the code header, so that a swapped / mis-sized field shows
             k = sum(case["choices"][:3]) % 50 if case["choices"] else 0
             nloc = 7 + k % 5
@@ -173,7 +179,9 @@ class C10:
             kinds = set()
             for v in case["values"]:
                 gv.kinds_in(v, kinds)
-            if not (kinds & {"S", "Z", "D"}) and _nolong(expected) != intended and not (py2 and "E" in kinds):
+            has_inner = bool(consts[1]) and consts[1][0][0] == "C"
+            chk_exp, chk_int = (expected, intended) if not has_inner else (["T", expected[1][1:]], ["T", intended[1][1:]])
+            if not (kinds & {"S", "Z", "D"}) and _nolong(chk_exp) != chk_int and not (py2 and "E" in kinds):
                 raise HarnessError("refmarshal self-check: CPython %s loaded %s, intended %s" % (
                     oracle_v, cn.summary(expected, 200), cn.summary(intended, 200)))
             ctx.extra["oracle_selfchecks"] = ctx.extra.get("oracle_selfchecks", 0) + 1
@@ -200,6 +208,9 @@ class C10:
                      "load_code raised %s: %s" % (type(e).__name__, e), {"tb": tb[-1200:]})
             got = None
         if got is not None:
+            if enc == "ref" and has_inner and got[0] == "T" and got[1] and expected[1]:
+                # (the nested code object is there for what it does to the reader's tables; code objects are C01's subject)
+                expected, got = ["T", expected[1][1:]], ["T", got[1][1:]]
             if (enc == "real" and case["mver"] < 2) or "textfloat" in features or "textcomplex" in features:
                 expected, got = cn.normalize_nan(expected), cn.normalize_nan(got)
             d = cn.diff(expected, got)
